@@ -86,8 +86,16 @@ def run_scenario(scn: dict, *, eager: bool = False, uv: bool = False) -> dict:
         return out
 
     def gc() -> list[dict]:
-        return [{"t": u, "n": st["gscope"][u], "c": 1 if tg.cancel_scope.cancel_called else 0}
-                for u, tg in sorted(st["groups"].items())]
+        # the library-cancelled scopes whose cancel flag the public API shows: active groups' scopes and
+        # the handle scopes of the running children (TaskHandle.status)
+        out = [{"t": u, "n": st["gscope"][u], "c": 1 if tg.cancel_scope.cancel_called else 0}
+               for u, tg in sorted(st["groups"].items())]
+        for c in sorted(st["stk"]):
+            stk = st["stk"][c]
+            if stk and stk[0][2] == "handle" and stk[0][0] is not None:
+                out.append({"t": c, "n": stk[0][1],
+                            "c": 1 if stk[0][0].status.name in ("CANCELLING", "CANCELLED") else 0})
+        return out
 
     def gid(u: int) -> int:
         return 10 * u + st["gk"][u]
